@@ -85,6 +85,10 @@ def project(ex):
             out.append({"e": e, "ob": nm(ev["ob"]), "k": ev["k"]})
         elif e == "Raise":
             out.append({"e": "Raise"})
+        elif e == "Reported" and not ev.get("caught"):
+            # an error that no catch could hold (too deep recursion / evaluation cost) reached the driver: every
+            # operation in progress was abandoned without its LPC-level result being logged
+            out.append({"e": "Raise"})
             # a clone in progress whose create() failed never reports CreateRes with an object
         elif e == "View":
             last_view = ev
